@@ -4,6 +4,9 @@ Document cache (L1a, both sub-caches under the A/B splitter) and recent-write ti
 driver and model (checks/c04.py: drive) with its own scratch directories and evidence file; the
 query-result cache bound lives with C07's model (Proofs/QCacheProofs.v) and is added to
 Properties/C20.v by the coordinator."""
+import json
+import os
+import vlib
 from checks import c04
 
 THEOREMS = {"Properties.C20": ["C20_l1a_bound", "C20_capacity_zero_unbounded", "C20_hot_bound_after_insert",
@@ -17,7 +20,41 @@ PINS = {"Properties.C20": {
 }}
 
 
+def qcache_stage(ctx):
+    """Query-result cache bound on the real QueryHashCache: the C07 driver's cache-operation stream
+    (seeded op sequences with len() observed after every step, capacities {1,2,4,12}); its direct oracle
+    'len exceeds capacity' decides C20's clause; the correspondence of the same stream with Model/QCache.v
+    (to which C20_qcache_bound applies) is evaluated by the C07 check."""
+    ok, log = vlib.cargo_build(["c07"])
+    if not ok:
+        ctx.violation({"property": "C20", "kind": "harness-build-failed", "log_tail": log[-2000:]}, no_input=True)
+        return
+    out = os.path.join(vlib.CACHE, "run", "C20q")
+    os.makedirs(out, exist_ok=True)
+    n = 400 if ctx.tier == "quick" else 4000
+    rc, o = vlib.sh([vlib.bin_path("c07"), "--out", out, "--n", str(n)], env={"VERIF_SEED": str(ctx.seed + 20)}, timeout=2400)
+    ctx.log("driver_c07_for_c20.log", o)
+    try:
+        summ = json.load(open(os.path.join(out, "summary.json")))
+    except Exception:
+        ctx.violation({"property": "C20", "kind": "harness-crashed", "rc": rc, "log_tail": o[-2000:]}, no_input=True)
+        return
+    a = summ.get("A", {})
+    h = a.get("histogram", {})
+    ctx.cov["query_cache_bound"] = {"op_sequences": a.get("cases"), "len_observations": h.get("len"),
+                                    "evicting_inserts": h.get("insert_evicting"), "invalidations_removing": (h.get("invalidate_doc_removing", 0) or 0) + (h.get("invalidate_for_insert_removing", 0) or 0),
+                                    "oracle_failures": len(a.get("oracle_failures", []))}
+    for f in a.get("oracle_failures", []):
+        if "exceeds capacity" in str(f.get("why", "")):
+            ctx.violation({"property": "C20", "kind": "oracle:query-cache-bound", "why": f.get("why"), "case": f.get("case"),
+                           "replay_cmd": "./check C07 --replay <this file> (stream A case)"})
+            return
+
+
 def run(ctx):
+    qcache_stage(ctx)
+    if ctx.violations:
+        return
     c04.drive(ctx, {
         "prop": "C20",
         "targets": ["Properties/C20.vo"],
